@@ -277,80 +277,7 @@ Proof. intros []; reflexivity. Qed.
 Lemma sign_cases c : is_sign c = true -> c = c_plus \/ c = c_minus.
 Proof. intro H. unfold is_sign in H. apply orb_true_iff in H. destruct H as [H|H]; apply N.eqb_eq in H; auto. Qed.
 
-(* ---- number_forms ------------------------------------------------------------------------------------ *)
-Lemma number_forms_lemma s :
-  fortran_number s = true -> signed_d s = false -> convert s = Some (value s).
-Proof.
-  unfold fortran_number, value. destruct (parse_number s) as [f|] eqn:P; [|discriminate]. intros _ Hsd.
-  destruct f as [|neg ip fp eneg ep].
-  - (* lone sign *)
-    unfold parse_number in P. destruct (str_eqb s [c_plus] || str_eqb s [c_minus]) eqn:El.
-    + apply orb_true_iff in El. destruct El as [El|El]; apply str_eqb_eq in El; subst; reflexivity.
-    + destruct (take_sign s) as [a b]. destruct (span is_digit b) as [c d].
-      destruct d as [|x d]; [|destruct (N.eqb x c_dot); [destruct (span is_digit d)|]];
-        match type of P with (if ?b then _ else _) = _ => destruct b end; try discriminate;
-        match type of P with match ?e with _ => _ end = _ => destruct e as [[? ?]|] end; discriminate.
-  - destruct (parse_number_inv _ _ _ _ _ _ P) as [sg [dot [tl [Hs [Hsg [Hm [Ht Hlone]]]]]]].
-    cbn [numform_value]. unfold convert.
-    pose proof (pyfloat_canon sg neg ip fp dot tl Hsg Hm (exp_tail_tail_ok _ _ _ dot Ht)) as Hpf.
-    rewrite <- Hs in Hpf. rewrite Hpf.
-    destruct Ht as [|m esg eneg ep Hmk Hes Hep Hne|c ep Hc Hep Hne].
-    + reflexivity.
-    + destruct (is_expmark_e m) eqn:Eme.
-      * rewrite (pyfloat_exp_e neg ip fp m esg eneg ep Eme Hes Hep Hne). reflexivity.
-      * (* D exponent *)
-        cbn [orb] in Hmk. rewrite (pyfloat_exp_other _ _ _ _ _ Eme). rewrite Hlone.
-        destruct Hsg.
-        2,3: exfalso; subst s; cbn in Hsd; rewrite existsb_app in Hsd; cbn [existsb] in Hsd; rewrite Hmk in Hsd;
-             rewrite !orb_true_r in Hsd; discriminate.
-        cbn [app] in Hs.
-        destruct (mant_head ip fp dot (m :: esg ++ ep) Hm) as [c0 [r0 [Hc0 [Hns Hnd]]]].
-        assert (short_match s = None) as Hsm.
-        { subst s. rewrite Hc0. unfold short_match. rewrite Hns. rewrite <- Hc0.
-          rewrite (span_app non_sd (mant_str ip fp dot) (m :: esg ++ ep) (mant_non_sd _ _ _ Hm)) by (char_tac).
-          assert (is_sign m = false) as -> by char_tac. reflexivity. }
-        rewrite Hsm.
-        assert (existsb is_expmark_d s = true) as ->.
-        { subst s. rewrite existsb_app. cbn [existsb]. rewrite Hmk. rewrite orb_true_r. reflexivity. }
-        assert (replace_d s = mant_str ip fp dot ++ c_e :: esg ++ ep) as ->.
-        { subst s. unfold replace_d. rewrite map_app. cbn [map]. rewrite Hmk. rewrite map_app.
-          fold (replace_d (mant_str ip fp dot)). fold (replace_d esg). fold (replace_d ep).
-          rewrite (replace_d_id (mant_str ip fp dot)), (replace_d_id esg), (replace_d_id ep); auto.
-          - revert Hep. apply forallb_impl. intros x Hx. char_tac.
-          - apply (sign_str_no_d _ _ Hes).
-          - generalize (mant_non_sd _ _ _ Hm). apply forallb_impl. intros x Hx. char_tac. }
-        pose proof (pyfloat_canon [] false ip fp dot (c_e :: esg ++ ep) SgNone Hm) as Hpf2.
-        cbn [app] in Hpf2. rewrite Hpf2 by (cbn; split; [reflexivity | intro; reflexivity]).
-        rewrite (pyfloat_exp_e false ip fp c_e esg eneg ep eq_refl Hes Hep Hne). reflexivity.
-    + (* short form *)
-      assert (is_expmark_e c = false) as Ece by (destruct (sign_cases _ Hc); subst; reflexivity).
-      rewrite (pyfloat_exp_other _ _ _ _ _ Ece). rewrite Hlone.
-      destruct (mant_head ip fp dot (c :: ep) Hm) as [c0 [r0 [Hc0 [Hns Hnd]]]].
-      assert (span non_sd (mant_str ip fp dot ++ c :: ep) = (mant_str ip fp dot, c :: ep)) as Hspan.
-      { apply span_app; [apply (mant_non_sd _ _ _ Hm)|]. destruct (sign_cases _ Hc); subst; reflexivity. }
-      assert (sign_str [c] (N.eqb c c_minus)) as Hcs by (destruct (sign_cases _ Hc); subst; constructor).
-      pose proof (pyfloat_exp_e neg ip fp c_E [c] (N.eqb c c_minus) ep eq_refl Hcs Hep Hne) as Hfin.
-      cbn [app] in Hfin.
-      destruct Hsg; cbn [app] in Hs.
-      * assert (short_match s = Some ([], mant_str ip fp dot, c, ep, 1 + length (mant_str ip fp dot) + length ep)) as ->.
-        { subst s. rewrite Hc0. unfold short_match. rewrite Hns. rewrite <- Hc0. rewrite Hspan. rewrite Hc.
-          rewrite (span_non_sd_digits_end _ Hep). reflexivity. }
-        cbn [str_eqb list_eqb app].
-        pose proof (pyfloat_canon [] false ip fp dot (c_E :: c :: ep) SgNone Hm) as Hpf2.
-        cbn [app] in Hpf2. rewrite Hpf2 by (cbn; split; [reflexivity | intro; reflexivity]). exact Hfin.
-      * assert (short_match s = Some ([c_plus], mant_str ip fp dot, c, ep, 2 + length (mant_str ip fp dot) + length ep)) as ->.
-        { subst s. unfold short_match. cbn [is_sign]. assert (is_sign c_plus = true) as -> by reflexivity.
-          rewrite Hspan. rewrite Hc. rewrite (span_non_sd_digits_end _ Hep). reflexivity. }
-        assert (str_eqb [c_plus] [c_minus] = false) as -> by reflexivity. cbn [app].
-        pose proof (pyfloat_canon [] false ip fp dot (c_E :: c :: ep) SgNone Hm) as Hpf2.
-        cbn [app] in Hpf2. rewrite Hpf2 by (cbn; split; [reflexivity | intro; reflexivity]). exact Hfin.
-      * assert (short_match s = Some ([c_minus], mant_str ip fp dot, c, ep, 2 + length (mant_str ip fp dot) + length ep)) as ->.
-        { subst s. unfold short_match. assert (is_sign c_minus = true) as -> by reflexivity.
-          rewrite Hspan. rewrite Hc. rewrite (span_non_sd_digits_end _ Hep). reflexivity. }
-        assert (str_eqb [c_minus] [c_minus] = true) as -> by reflexivity.
-        pose proof (pyfloat_canon [c_minus] true ip fp dot (c_E :: c :: ep) SgMinus Hm) as Hpf2.
-        cbn [app] in Hpf2. cbn [app]. rewrite Hpf2 by (cbn; split; [reflexivity | intro; reflexivity]). exact Hfin.
-Qed.
+
 
 (* ---- convert_rejects ------------------------------------------------------------------------------ *)
 Definition noUS (s : str) : Prop := forallb (fun c => negb (N.eqb c c_us)) s = true.
@@ -545,9 +472,9 @@ Proof.
 Qed.
 
 Lemma convert_rejects_lemma s :
-  g_charset s = true -> g_anchored s = true -> fortran_number s = false -> convert s = None.
+  g_charset s = true -> fortran_number s = false -> convert s = None.
 Proof.
-  intros Hcs Hanch Hnf. destruct (convert s) as [q|] eqn:Hc; [|reflexivity]. exfalso.
+  intros Hcs Hnf. destruct (convert s) as [q|] eqn:Hc; [|reflexivity]. exfalso.
   assert (fortran_number s = true) as Hyes; [|congruence]. clear Hnf.
   pose proof (charset_noUS _ Hcs) as Hus.
   unfold convert in Hc. destruct (pyfloat s) as [q0|] eqn:Hpf.
@@ -555,10 +482,12 @@ Proof.
     subst s. eapply fortran_number_canon; eauto.
   - destruct (str_eqb s [c_plus] || str_eqb s [c_minus]) eqn:El.
     + apply orb_true_iff in El. destruct El as [El|El]; apply str_eqb_eq in El; subst; reflexivity.
-    + destruct (short_match s) as [[[[[g1 g2] g3] g4] k]|] eqn:Hsm.
+    + destruct (short_fullmatch s) as [[[[g1 g2] g3] g4]|] eqn:Hsf.
       * (* short form *)
+        unfold short_fullmatch in Hsf. destruct (short_match s) as [[[[[g1' g2'] g3'] g4'] k]|] eqn:Hsm; [|discriminate].
+        destruct (Nat.eqb k (length s)) eqn:Hanch; [|discriminate]. inversion Hsf. subst g1' g2' g3' g4'. clear Hsf.
         destruct (short_match_spec _ _ _ _ _ _ Hsm) as [rest [Hs [Hk [Hg2 [Hg4 [Hg3 Hg1]]]]]].
-        unfold g_anchored in Hanch. rewrite Hsm in Hanch. apply Nat.eqb_eq in Hanch.
+        apply Nat.eqb_eq in Hanch.
         assert (rest = []) as ->.
         { rewrite Hs in Hanch. rewrite Hk in Hanch. rewrite !app_length in Hanch. cbn in Hanch.
           rewrite !app_length in Hanch. destruct rest; [reflexivity | cbn in Hanch; lia]. }
@@ -633,6 +562,106 @@ Proof.
               destruct (is_expmark_d m0) eqn:Em0; [apply orb_true_r|]. subst m. cbn in Hmk. rewrite Hmk. reflexivity.
            ++ cbn in Hmk. destruct (sign_cases _ Hcc); subst; discriminate.
 Qed.
+
+(* a full match of the short-form pattern contains no D *)
+Lemma short_fullmatch_no_d s g : short_fullmatch s = Some g -> existsb is_expmark_d s = false.
+Proof.
+  unfold short_fullmatch. destruct (short_match s) as [[[[[g1 g2] g3] g4] k]|] eqn:Hsm; [|discriminate].
+  destruct (Nat.eqb k (length s)) eqn:Hk; [|discriminate]. intros _. apply Nat.eqb_eq in Hk.
+  destruct (short_match_spec _ _ _ _ _ _ Hsm) as [rest [Hs [Hkk [Hg2 [Hg4 [Hg3 Hg1]]]]]].
+  assert (rest = []) as ->.
+  { rewrite Hs in Hk. rewrite Hkk in Hk. rewrite !app_length in Hk. cbn in Hk. rewrite !app_length in Hk.
+    destruct rest; [reflexivity | cbn in Hk; lia]. }
+  rewrite app_nil_r in Hs. rewrite Hs. rewrite !existsb_app. cbn [existsb]. apply not_true_is_false. intro F.
+  assert (forall l, forallb non_sd l = true -> existsb is_expmark_d l = false) as Hn.
+  { intros l Hl. apply not_true_is_false. intro T. apply existsb_exists in T. destruct T as [x [Hx Hd]].
+    rewrite forallb_forall in Hl. specialize (Hl x Hx). char_tac. }
+  rewrite (Hn g2 Hg2), (Hn g4 Hg4) in F.
+  assert (existsb is_expmark_d g1 = false) as E1 by (destruct Hg1 as [->|[->| ->]]; reflexivity).
+  rewrite E1 in F. destruct (sign_cases _ Hg3); subst g3; discriminate.
+Qed.
+
+(* ---- number_forms ------------------------------------------------------------------------------------ *)
+Lemma number_forms_lemma s :
+  fortran_number s = true -> convert s = Some (value s).
+Proof.
+  unfold fortran_number, value. destruct (parse_number s) as [f|] eqn:P; [|discriminate]. intros _.
+  destruct f as [|neg ip fp eneg ep].
+  - (* lone sign *)
+    unfold parse_number in P. destruct (str_eqb s [c_plus] || str_eqb s [c_minus]) eqn:El.
+    + apply orb_true_iff in El. destruct El as [El|El]; apply str_eqb_eq in El; subst; reflexivity.
+    + destruct (take_sign s) as [a b]. destruct (span is_digit b) as [c d].
+      destruct d as [|x d]; [|destruct (N.eqb x c_dot); [destruct (span is_digit d)|]];
+        match type of P with (if ?b then _ else _) = _ => destruct b end; try discriminate;
+        match type of P with match ?e with _ => _ end = _ => destruct e as [[? ?]|] end; discriminate.
+  - destruct (parse_number_inv _ _ _ _ _ _ P) as [sg [dot [tl [Hs [Hsg [Hm [Ht Hlone]]]]]]].
+    cbn [numform_value]. unfold convert.
+    pose proof (pyfloat_canon sg neg ip fp dot tl Hsg Hm (exp_tail_tail_ok _ _ _ dot Ht)) as Hpf.
+    rewrite <- Hs in Hpf. rewrite Hpf.
+    destruct Ht as [|m esg eneg ep Hmk Hes Hep Hne|c ep Hc Hep Hne].
+    + reflexivity.
+    + destruct (is_expmark_e m) eqn:Eme.
+      * rewrite (pyfloat_exp_e neg ip fp m esg eneg ep Eme Hes Hep Hne). reflexivity.
+      * (* D exponent, signed mantissa or not *)
+        cbn [orb] in Hmk. rewrite (pyfloat_exp_other _ _ _ _ _ Eme). rewrite Hlone.
+        assert (existsb is_expmark_d s = true) as Hd.
+        { subst s. rewrite !existsb_app. cbn [existsb]. rewrite Hmk. rewrite !orb_true_r. reflexivity. }
+        assert (short_fullmatch s = None) as ->.
+        { destruct (short_fullmatch s) as [g|] eqn:E; [|reflexivity]. rewrite (short_fullmatch_no_d _ _ E) in Hd. discriminate. }
+        rewrite Hd.
+        assert (replace_d s = sg ++ mant_str ip fp dot ++ c_e :: esg ++ ep) as ->.
+        { subst s. unfold replace_d. rewrite !map_app. cbn [map]. rewrite Hmk. rewrite map_app.
+          fold (replace_d sg). fold (replace_d (mant_str ip fp dot)). fold (replace_d esg). fold (replace_d ep).
+          rewrite (replace_d_id sg), (replace_d_id (mant_str ip fp dot)), (replace_d_id esg), (replace_d_id ep); auto.
+          - revert Hep. apply forallb_impl. intros x Hx. char_tac.
+          - apply (sign_str_no_d _ _ Hes).
+          - generalize (mant_non_sd _ _ _ Hm). apply forallb_impl. intros x Hx. char_tac.
+          - apply (sign_str_no_d _ _ Hsg). }
+        pose proof (pyfloat_canon sg neg ip fp dot (c_e :: esg ++ ep) Hsg Hm) as Hpf2.
+        rewrite Hpf2 by (cbn; split; [reflexivity | intro; reflexivity]).
+        rewrite (pyfloat_exp_e neg ip fp c_e esg eneg ep eq_refl Hes Hep Hne). reflexivity.
+    + (* short form *)
+      assert (is_expmark_e c = false) as Ece by (destruct (sign_cases _ Hc); subst; reflexivity).
+      rewrite (pyfloat_exp_other _ _ _ _ _ Ece). rewrite Hlone.
+      destruct (mant_head ip fp dot (c :: ep) Hm) as [c0 [r0 [Hc0 [Hns Hnd]]]].
+      assert (span non_sd (mant_str ip fp dot ++ c :: ep) = (mant_str ip fp dot, c :: ep)) as Hspan.
+      { apply span_app; [apply (mant_non_sd _ _ _ Hm)|]. destruct (sign_cases _ Hc); subst; reflexivity. }
+      assert (sign_str [c] (N.eqb c c_minus)) as Hcs by (destruct (sign_cases _ Hc); subst; constructor).
+      pose proof (pyfloat_exp_e neg ip fp c_E [c] (N.eqb c c_minus) ep eq_refl Hcs Hep Hne) as Hfin.
+      cbn [app] in Hfin.
+      destruct Hsg; cbn [app] in Hs.
+      * assert (short_fullmatch s = Some ([], mant_str ip fp dot, c, ep)) as ->.
+        { unfold short_fullmatch.
+          assert (short_match s = Some ([], mant_str ip fp dot, c, ep, 1 + length (mant_str ip fp dot) + length ep)) as ->.
+          { subst s. rewrite Hc0. unfold short_match. rewrite Hns. rewrite <- Hc0. rewrite Hspan. rewrite Hc.
+            rewrite (span_non_sd_digits_end _ Hep). reflexivity. }
+          assert (Nat.eqb (1 + length (mant_str ip fp dot) + length ep) (length s) = true) as ->; [|reflexivity].
+          apply Nat.eqb_eq. subst s. rewrite app_length. cbn [length]. lia. }
+        cbn [str_eqb list_eqb app].
+        pose proof (pyfloat_canon [] false ip fp dot (c_E :: c :: ep) SgNone Hm) as Hpf2.
+        cbn [app] in Hpf2. rewrite Hpf2 by (cbn; split; [reflexivity | intro; reflexivity]). exact Hfin.
+      * assert (short_fullmatch s = Some ([c_plus], mant_str ip fp dot, c, ep)) as ->.
+        { unfold short_fullmatch.
+          assert (short_match s = Some ([c_plus], mant_str ip fp dot, c, ep, 2 + length (mant_str ip fp dot) + length ep)) as ->.
+          { subst s. unfold short_match. assert (is_sign c_plus = true) as -> by reflexivity.
+            rewrite Hspan. rewrite Hc. rewrite (span_non_sd_digits_end _ Hep). reflexivity. }
+          assert (Nat.eqb (2 + length (mant_str ip fp dot) + length ep) (length s) = true) as ->; [|reflexivity].
+          apply Nat.eqb_eq. subst s. cbn [length]. rewrite app_length. cbn [length]. lia. }
+        assert (str_eqb [c_plus] [c_minus] = false) as -> by reflexivity. cbn [app].
+        pose proof (pyfloat_canon [] false ip fp dot (c_E :: c :: ep) SgNone Hm) as Hpf2.
+        cbn [app] in Hpf2. rewrite Hpf2 by (cbn; split; [reflexivity | intro; reflexivity]). exact Hfin.
+      * assert (short_fullmatch s = Some ([c_minus], mant_str ip fp dot, c, ep)) as ->.
+        { unfold short_fullmatch.
+          assert (short_match s = Some ([c_minus], mant_str ip fp dot, c, ep, 2 + length (mant_str ip fp dot) + length ep)) as ->.
+          { subst s. unfold short_match. assert (is_sign c_minus = true) as -> by reflexivity.
+            rewrite Hspan. rewrite Hc. rewrite (span_non_sd_digits_end _ Hep). reflexivity. }
+          assert (Nat.eqb (2 + length (mant_str ip fp dot) + length ep) (length s) = true) as ->; [|reflexivity].
+          apply Nat.eqb_eq. subst s. cbn [length]. rewrite app_length. cbn [length]. lia. }
+        assert (str_eqb [c_minus] [c_minus] = true) as -> by reflexivity.
+        pose proof (pyfloat_canon [c_minus] true ip fp dot (c_E :: c :: ep) SgMinus Hm) as Hpf2.
+        cbn [app] in Hpf2. cbn [app]. rewrite Hpf2 by (cbn; split; [reflexivity | intro; reflexivity]). exact Hfin.
+Qed.
+
 
 (* ---- split_spec ------------------------------------------------------------------------------------- *)
 Definition is_spc (c : N) : bool := N.eqb c_sp c.
@@ -882,45 +911,55 @@ Proof. revert k. induction n as [|n IH]; intros k H; [reflexivity|]. destruct k;
 Lemma map_repeat {A B} (f : A -> B) x n : map f (repeat x n) = repeat (f x) n.
 Proof. induction n; cbn; [reflexivity|]. f_equal. assumption. Qed.
 
-Lemma pad_strip_row n w nullstr r :
-  null_subst nullstr (Some nullstr) = nullstr -> w <= n -> Nat.min (length r) n <= w ->
-  map (null_subst nullstr) (shape w r ++ repeat (Some nullstr) (n - w)) = map (null_subst nullstr) (spec_shape n r)
-  /\ length (shape w r ++ repeat (Some nullstr) (n - w)) = n.
+Lemma firstn_firstn_le {A} (l : list A) n w : n <= w -> firstn n (firstn w l) = firstn n l.
+Proof. intro H. rewrite firstn_firstn. rewrite Nat.min_l by lia. reflexivity. Qed.
+
+Lemma firstn_pad {A} (a : list A) (x : A) n k1 k2 : n <= length a + k1 -> n <= length a + k2 ->
+  firstn n (a ++ repeat x k1) = firstn n (a ++ repeat x k2).
 Proof.
-  intros Hns Hwn Hmin. unfold shape, spec_shape. destruct (le_lt_dec (length r) w) as [Hle|Hgt].
-  - assert (length (map Some r) = length r) as Hl by apply map_length.
-    rewrite (firstn_app_ge (map Some r) (repeat None w) w) by lia.
-    rewrite (firstn_app_ge (map Some r) (repeat None n) n) by lia. rewrite Hl.
-    rewrite !firstn_repeat by lia. split.
-    + rewrite !map_app, !map_repeat. rewrite Hns. cbn [null_subst]. rewrite <- app_assoc. f_equal.
-      rewrite <- repeat_app. f_equal. lia.
-    + rewrite !app_length, !repeat_length, Hl. lia.
-  - assert (n = w) as -> by lia. rewrite Nat.sub_diag. cbn [repeat]. rewrite app_nil_r. split; [reflexivity|].
-    rewrite firstn_length, app_length, map_length, repeat_length. lia.
+  intros H1 H2. destruct (le_lt_dec n (length a)) as [Hle|Hgt].
+  - rewrite !firstn_app_le by exact Hle. reflexivity.
+  - rewrite !firstn_app_ge by lia. rewrite !firstn_repeat by lia. reflexivity.
 Qed.
 
-Lemma pad_strip_lemma n nullstr rows fr :
-  null_subst nullstr (Some nullstr) = nullstr ->
-  frame n nullstr rows = Ok fr ->
+(* a row of the frame: cut/padded to the width w of the first row, then to the n columns of $INPUT *)
+Definition mshape (w n : nat) (r : list str) : list (option str) := firstn n (shape w r) ++ repeat None (n - w).
+
+Lemma pad_strip_row n w r : Nat.min (length r) n <= w -> mshape w n r = spec_shape n r.
+Proof.
+  intro Hmin. unfold mshape, shape, spec_shape.
+  assert (length (map Some r) = length r) as Hl by apply (map_length (@Some str)).
+  destruct (le_lt_dec w n) as [Hwn|Hnw].
+  - rewrite (firstn_all2 (n := n)) by (rewrite firstn_length, app_length, repeat_length; lia).
+    destruct (le_lt_dec (length r) w) as [Hle|Hgt].
+    + rewrite (firstn_app_ge (map Some r) (repeat None w) w) by lia.
+      rewrite (firstn_app_ge (map Some r) (repeat None n) n) by lia. rewrite Hl.
+      rewrite !firstn_repeat by lia. rewrite <- app_assoc. f_equal. rewrite <- repeat_app. f_equal. lia.
+    + assert (n = w) as -> by lia. rewrite Nat.sub_diag. cbn [repeat]. apply app_nil_r.
+  - replace (n - w) with 0 by lia. cbn [repeat]. rewrite app_nil_r. rewrite firstn_firstn_le by lia.
+    apply firstn_pad; rewrite Hl; lia.
+Qed.
+
+Lemma length_spec_shape n r : length (spec_shape n r) = n.
+Proof. unfold spec_shape. rewrite firstn_length, app_length, map_length, repeat_length. lia. Qed.
+
+Lemma pad_strip_lemma n rows fr :
+  frame n rows = Ok fr ->
   forallb (fun r => Nat.min (length r) n <=? length (hd [] rows)) rows = true ->
-  map (map (null_subst nullstr)) fr = map (fun r => map (null_subst nullstr) (spec_shape n r)) rows /\
-  Forall (fun r => length r = n) fr.
+  fr = map (spec_shape n) rows /\ Forall (fun r => length r = n) fr.
 Proof.
-  intros Hns Hfr Hall. unfold frame in Hfr. destruct rows as [|r0 rest]; [discriminate|].
-  cbn [hd] in Hall. set (w := length r0) in *. destruct (n <? w) eqn:E; [discriminate|]. apply Nat.ltb_ge in E.
-  inversion Hfr. subst fr. clear Hfr. rewrite forallb_forall in Hall. split.
-  - change ((shape w r0 ++ repeat (Some nullstr) (n - w)) :: map (fun r : list str => shape w r ++ repeat (Some nullstr) (n - w)) rest)
-      with (map (fun r : list str => shape w r ++ repeat (Some nullstr) (n - w)) (r0 :: rest)).
-    rewrite map_map. apply map_ext_in. intros r Hr. specialize (Hall _ Hr). apply Nat.leb_le in Hall.
-    apply (pad_strip_row n w nullstr r Hns E Hall).
-  - apply Forall_forall. intros x Hx.
-    change (In x (map (fun r : list str => shape w r ++ repeat (Some nullstr) (n - w)) (r0 :: rest))) in Hx. apply in_map_iff in Hx. destruct Hx as [r [<- Hr]].
-    specialize (Hall _ Hr). apply Nat.leb_le in Hall. apply (pad_strip_row n w nullstr r Hns E Hall).
+  intros Hfr Hall. unfold frame in Hfr. destruct rows as [|r0 rest]; [discriminate|].
+  cbn [hd] in Hall. set (w := length r0) in *. inversion Hfr. subst fr. clear Hfr. rewrite forallb_forall in Hall.
+  assert (map (fun r : list str => firstn n (shape w r) ++ repeat None (n - w)) (r0 :: rest) = map (spec_shape n) (r0 :: rest)) as E.
+  { apply map_ext_in. intros r Hr. apply (pad_strip_row n w r). apply Nat.leb_le. apply Hall. exact Hr. }
+  split; [exact E|]. apply Forall_forall. intros x Hx.
+  change (In x (map (fun r : list str => firstn n (shape w r) ++ repeat None (n - w)) (r0 :: rest))) in Hx. rewrite E in Hx.
+  apply in_map_iff in Hx. destruct Hx as [r [<- _]]. apply length_spec_shape.
 Qed.
 
-(* the code rejects a first row that is wider than $INPUT *)
-Lemma frame_rejects_lemma n nullstr r0 rest : n < length r0 -> frame n nullstr (r0 :: rest) = Err KeyErr.
-Proof. intro H. unfold frame. apply Nat.ltb_lt in H. rewrite H. reflexivity. Qed.
+(* a wider first row is cut to $INPUT (c9e4304): the frame always exists when there is a row *)
+Lemma frame_total_lemma n r0 rest : exists fr, frame n (r0 :: rest) = Ok fr /\ length fr = S (length rest).
+Proof. unfold frame. eexists. split; [reflexivity|]. cbn. rewrite map_length. reflexivity. Qed.
 
 (* ---- filters_in_order ----------------------------------------------------------------------------------- *)
 Definition only_err {A} (e0 : err) (p : A -> res bool) : Prop := forall x e, p x = Err e -> e = e0.
@@ -1045,35 +1084,46 @@ Proof.
   destruct t; cbn; [rewrite H|]; reflexivity.
 Qed.
 
-Lemma blank_error_sound ls t : blank_error ls t = true -> existsb (forallb is_blankc) (file_lines (ls, t)) = true.
+Lemma blank_error_spec ls t : blank_error ls t = existsb (forallb is_blankc) (file_lines (ls, t)).
 Proof.
-  unfold file_lines. cbn [fst snd]. induction ls as [|l rest IH]; [discriminate|]. cbn [blank_error].
-  intro H. apply orb_true_iff in H. destruct H as [H|H].
-  - apply andb_true_iff in H. destruct H as [H _]. cbn. rewrite H. reflexivity.
-  - cbn. rewrite (IH H). apply orb_true_r.
+  unfold blank_error, file_lines. cbn [fst snd]. rewrite existsb_app. f_equal.
+  destruct t; cbn [is_nil negb andb existsb]; [reflexivity|]. rewrite orb_false_r. reflexivity.
 Qed.
 
+Lemma lines_agree_tail (kept : list str) (t : str) :
+  match (if existsb has_space_tab (kept ++ [t]) then Err DatasetError
+         else if blank_error kept t then Err DatasetError else Ok (kept, t)) with
+  | Ok p => (if existsb has_space_tab (file_lines (kept, t)) then Err DatasetError
+             else if existsb (forallb is_blankc) (file_lines (kept, t)) then Err DatasetError
+             else Ok (file_lines (kept, t))) = Ok (file_lines p)
+  | Err e => (if existsb has_space_tab (file_lines (kept, t)) then Err DatasetError
+              else if existsb (forallb is_blankc) (file_lines (kept, t)) then Err DatasetError
+              else Ok (file_lines (kept, t))) = Err e
+  end.
+Proof.
+  rewrite (existsb_file_lines has_space_tab kept t eq_refl). rewrite blank_error_spec.
+  destruct (existsb has_space_tab (file_lines (kept, t))); [reflexivity|].
+  destruct (existsb (forallb is_blankc) (file_lines (kept, t))); reflexivity.
+Qed.
+
+(* since the fixes 8a96a4a and f9c38b4 the prefilter IS the documented line rule: no side condition *)
 Lemma lines_agree ic s :
-  regex_unsafe ic = false ->
-  comment_line ic (snd (lines_tail s)) = false ->
-  (let (ls, t) := lines_tail s in
-   let kept := filter (fun l => negb (comment_line ic l)) ls in
-   negb (existsb (forallb is_blankc) (file_lines (kept, t))) || blank_error kept t) = true ->
   match prefilter ic s with
   | Ok p => spec_lines ic s = Ok (file_lines p)
   | Err e => spec_lines ic s = Err e
   end.
 Proof.
-  intros Hu Hlast Hblank. unfold prefilter, spec_lines, all_lines. rewrite Hu.
-  destruct (lines_tail s) as [ls t] eqn:Elt. cbn [snd] in Hlast. cbv beta iota zeta in Hblank.
+  unfold prefilter, spec_lines, all_lines.
+  destruct (lines_tail s) as [ls t0] eqn:Elt.
   set (kept := filter (fun l => negb (comment_line ic l)) ls) in *.
-  assert (filter (fun l => negb (spec_comment ic l)) (file_lines (ls, t)) = file_lines (kept, t)) as ->.
-  { apply filter_file_lines. right. rewrite spec_comment_eq, Hlast. reflexivity. }
-  rewrite (existsb_file_lines has_space_tab kept t eq_refl).
-  destruct (existsb has_space_tab (file_lines (kept, t))); [reflexivity|].
-  destruct (blank_error kept t) eqn:Eb.
-  - rewrite (blank_error_sound _ _ Eb). reflexivity.
-  - rewrite orb_false_r in Hblank. apply negb_true_iff in Hblank. rewrite Hblank. reflexivity.
+  destruct (comment_line ic t0) eqn:Ect.
+  - assert (filter (fun l => negb (spec_comment ic l)) (file_lines (ls, t0)) = file_lines (kept, [])) as ->.
+    { unfold file_lines. cbn [fst snd is_nil]. rewrite filter_app. fold kept. f_equal.
+      destruct t0 as [|c t0']; [reflexivity|]. cbn [is_nil filter]. rewrite spec_comment_eq, Ect. reflexivity. }
+    apply lines_agree_tail.
+  - assert (filter (fun l => negb (spec_comment ic l)) (file_lines (ls, t0)) = file_lines (kept, t0)) as ->.
+    { apply filter_file_lines. right. rewrite spec_comment_eq, Ect. reflexivity. }
+    apply lines_agree_tail.
 Qed.
 
 (* characters of the lines of a text *)
@@ -1185,9 +1235,6 @@ Proof.
 Qed.
 
 (* ---- the frame ---------------------------------------------------------------------------------------- *)
-Definition mshape (w n : nat) (ns : str) (r : list str) : list (option str) :=
-  shape w r ++ repeat (Some ns) (n - w).
-
 Lemma nth_shape w r j : j < w -> nth j (shape w r) None = nth_error r j.
 Proof.
   intro H. unfold shape.
@@ -1205,31 +1252,23 @@ Qed.
 Lemma length_shape w r : length (shape w r) = w.
 Proof. unfold shape. rewrite firstn_length, app_length, map_length, repeat_length. lia. Qed.
 
-Lemma nth_mshape_lt w n ns r j : j < w -> nth_cell (mshape w n ns r) j = nth_error r j.
-Proof.
-  intro H. unfold nth_cell, mshape. rewrite app_nth1 by (rewrite length_shape; exact H). apply nth_shape. exact H.
-Qed.
-
 Lemma nth_repeat_in {A} (a d : A) m k : k < m -> nth k (repeat a m) d = a.
 Proof. revert k. induction m as [|m IH]; intros k H; [lia|]. destruct k; [reflexivity|]. cbn. apply IH. lia. Qed.
 
-Lemma nth_mshape_ge w n ns r j : w <= j -> j < n -> nth_cell (mshape w n ns r) j = Some ns.
-Proof.
-  intros H1 H2. unfold nth_cell, mshape. rewrite app_nth2 by (rewrite length_shape; exact H1). rewrite length_shape.
-  apply nth_repeat_in. lia.
-Qed.
+Lemma nth_spec_shape n r j : j < n -> nth_cell (spec_shape n r) j = nth_error r j.
+Proof. apply nth_shape. Qed.
 
 (* ---- items -------------------------------------------------------------------------------------------- *)
-Definition item_ok3 (x : str) : bool := item_signed_d_ok x && item_anchored_ok x && item_charset_ok x.
+Definition item_ok3 (x : str) : bool := item_charset_ok x.
 
+(* since fix 0a78c77 the conversion agrees with the grammar on the whole documented alphabet *)
 Lemma item_agree x : item_ok3 x = true -> convert x = spec_convert x.
 Proof.
-  unfold item_ok3, item_signed_d_ok, item_anchored_ok, item_charset_ok. intro H.
-  apply andb_true_iff in H. destruct H as [H H3]. apply andb_true_iff in H. destruct H as [H1 H2]. apply negb_true_iff in H1.
+  unfold item_ok3, item_charset_ok. intro H3.
   destruct (fortran_number x) eqn:Ef.
-  - rewrite (number_forms_lemma x Ef H1). unfold value, spec_convert. unfold fortran_number in Ef.
+  - rewrite (number_forms_lemma x Ef). unfold value, spec_convert. unfold fortran_number in Ef.
     destruct (parse_number x); [reflexivity | discriminate].
-  - rewrite (convert_rejects_lemma x H3 H2 Ef). unfold spec_convert. unfold fortran_number in Ef.
+  - rewrite (convert_rejects_lemma x H3 Ef). unfold spec_convert. unfold fortran_number in Ef.
     destruct (parse_number x); [discriminate | reflexivity].
 Qed.
 
@@ -1304,65 +1343,47 @@ Proof. unfold filter_opk, filter_kind. destruct (f_op f); [destruct (op_of_text 
 
 Section RowFacts.
   Variables (i : input) (names : list str) (drops : list bool) (syn : list (str * str)) (ns mdt : str).
-  Variable w : nat.
   Let n := length names.
   Hypothesis Hdrops : length drops = n.
-  Hypothesis Hwn : w <= n.
   Hypothesis Hnull : item_ok3 ns = true /\ null_subst ns (Some ns) = ns.
-  Hypothesis Hw : w = first_width i.
 
-  (* what the guards say about one data row *)
+  (* what the guard says about the items of one data row *)
   Definition row_guard (r : list str) : Prop :=
-    Nat.min (length r) n <= w /\
-    items_ok item_signed_d_ok (conv_flags names drops syn i) r = true /\
-    items_ok item_anchored_ok (conv_flags names drops syn i) r = true /\
     items_ok item_charset_ok (conv_flags names drops syn i) r = true.
-
-  Lemma cell_null_eq r j : Nat.min (length r) n <= w -> j < n ->
-    null_subst ns (nth_cell (mshape w n ns r) j) = null_subst ns (nth_error r j).
-  Proof.
-    intros Hmin Hj. destruct (le_lt_dec w j) as [Hge|Hlt].
-    - rewrite (nth_mshape_ge w n ns r j Hge Hj). assert (nth_error r j = None) as -> by (apply nth_error_None; lia).
-      apply (proj2 Hnull).
-    - rewrite (nth_mshape_lt w n ns r j Hlt). reflexivity.
-  Qed.
 
   Lemma cell_item_ok r j : row_guard r -> j < n -> nth j (conv_flags names drops syn i) false = true ->
     item_ok3 (null_subst ns (nth_error r j)) = true.
   Proof.
-    intros [Hmin [H1 [H2 H3]]] Hj Hf. destruct (nth_error r j) as [x|] eqn:E; [|apply (proj1 Hnull)].
+    intros H3 Hj Hf. destruct (nth_error r j) as [x|] eqn:E; [|apply (proj1 Hnull)].
     cbn [null_subst]. destruct (str_eqb x [c_dot] || is_nil x); [apply (proj1 Hnull)|].
-    unfold item_ok3. rewrite (items_ok_nth _ _ _ _ _ H1 Hf E), (items_ok_nth _ _ _ _ _ H2 Hf E), (items_ok_nth _ _ _ _ _ H3 Hf E). reflexivity.
+    unfold item_ok3. apply (items_ok_nth _ _ _ _ _ H3 Hf E).
   Qed.
 
   Lemma filter_get_agree ign f r :
-    In f (i_ignore i ++ i_accept i) -> g_filter_cols names syn i = true -> row_guard r ->
-    filter_get (convert_item ns mdt) names syn ign f (nth_cell (mshape w n ns r)) =
+    In f (i_ignore i ++ i_accept i) -> row_guard r ->
+    filter_get (convert_item ns mdt) names syn ign f (nth_cell (spec_shape n r)) =
     filter_get (spec_item ns mdt) names syn ign f (nth_error r).
   Proof.
-    intros Hin Hfc Hrg. unfold filter_get. fold (filter_opk f). pose proof (filter_opk_kind f) as Hk.
+    intros Hin Hrg. unfold filter_get. fold (filter_opk f). pose proof (filter_opk_kind f) as Hk.
     destruct (filter_opk f) as [op kind]. cbn [snd] in Hk.
     destruct (index_of (filter_column syn f) names) as [j|] eqn:Ei; [|reflexivity].
     destruct (index_of_lt _ _ _ Ei) as [Hj _]. fold n in Hj.
-    destruct kind.
-    - (* text *)
-      unfold g_filter_cols in Hfc. rewrite forallb_forall in Hfc. specialize (Hfc f Hin). rewrite <- Hk in Hfc. cbn in Hfc.
-      rewrite Ei in Hfc. apply Nat.ltb_lt in Hfc. rewrite <- Hw in Hfc. rewrite (nth_mshape_lt w n ns r j Hfc). reflexivity.
-    - assert (nth j (conv_flags names drops syn i) false = true) as Hflag.
-      { rewrite nth_conv_flags by (fold n; assumption). apply orb_true_iff. right. unfold numeric_filter_col.
-        apply existsb_exists. exists f. split; [exact Hin|]. rewrite <- Hk. cbn. rewrite Ei. apply Nat.eqb_refl. }
-      rewrite (item_conv_agree ns mdt (nth_cell (mshape w n ns r) j) (nth_error r j)); [reflexivity| |].
-      + apply cell_null_eq; [apply Hrg | exact Hj].
-      + rewrite cell_null_eq by (try apply Hrg; exact Hj). apply cell_item_ok; assumption.
+    rewrite (nth_spec_shape n r j Hj).
+    destruct kind; [reflexivity|].
+    assert (nth j (conv_flags names drops syn i) false = true) as Hflag.
+    { rewrite nth_conv_flags by (fold n; assumption). apply orb_true_iff. right. unfold numeric_filter_col.
+      apply existsb_exists. exists f. split; [exact Hin|]. rewrite <- Hk. cbn. rewrite Ei. apply Nat.eqb_refl. }
+    rewrite (item_conv_agree ns mdt (nth_error r j) (nth_error r j)); [reflexivity | reflexivity|].
+    apply cell_item_ok; assumption.
   Qed.
 
   Lemma filters_get_agree ign fs r :
-    incl fs (i_ignore i ++ i_accept i) -> g_filter_cols names syn i = true -> row_guard r ->
-    filters_get (convert_item ns mdt) names syn ign fs (nth_cell (mshape w n ns r)) =
+    incl fs (i_ignore i ++ i_accept i) -> row_guard r ->
+    filters_get (convert_item ns mdt) names syn ign fs (nth_cell (spec_shape n r)) =
     filters_get (spec_item ns mdt) names syn ign fs (nth_error r).
   Proof.
-    intros Hincl Hfc Hrg. induction fs as [|f fs IH]; [reflexivity|]. cbn [filters_get].
-    rewrite (filter_get_agree ign f r (Hincl f (or_introl eq_refl)) Hfc Hrg).
+    intros Hincl Hrg. induction fs as [|f fs IH]; [reflexivity|]. cbn [filters_get].
+    rewrite (filter_get_agree ign f r (Hincl f (or_introl eq_refl)) Hrg).
     destruct (filter_get (spec_item ns mdt) names syn ign f (nth_error r)) as [[|]|]; try reflexivity.
     apply IH. intros x Hx. apply Hincl. right. exact Hx.
   Qed.
@@ -1742,12 +1763,6 @@ Proof.
 Qed.
 
 (* ---- rows of the frame through conversion ------------------------------------------------------------- *)
-Lemma length_mshape w n ns r : w <= n -> length (mshape w n ns r) = n.
-Proof. intro H. unfold mshape. rewrite app_length, length_shape, repeat_length. lia. Qed.
-
-Lemma nth_spec_shape n r j : j < n -> nth j (spec_shape n r) None = nth_error r j.
-Proof. apply nth_shape. Qed.
-
 Lemma rows_convert_agree ns mdt lbl names drops (f : list str -> list (option str)) (rows : list (list str)) :
   (forall r, In r rows ->
      match convert_row ns mdt (parse_flags names drops) (f r) with
@@ -1770,14 +1785,6 @@ Proof.
     + destruct IH as [I1 I2]. rewrite I1. split; [reflexivity|]. intros cs0 [<-|Hin]; [split; assumption | apply I2; exact Hin].
     + rewrite IH. reflexivity.
   - rewrite Hr. reflexivity.
-Qed.
-
-Lemma time_col_lt names drops i j :
-  g_time_col names drops i = true -> nodup_s names = true -> j < length names ->
-  nth j names [] = s_TIME -> nth j drops false = false -> j < first_width i.
-Proof.
-  intros G Hn Hj Ht Hd. unfold g_time_col in G. rewrite <- Ht in G. rewrite (index_of_nodup names j Hn Hj) in G.
-  rewrite Hd in G. cbn [orb] in G. apply Nat.ltb_lt in G. exact G.
 Qed.
 
 Lemma id_drop_item names drops i j l r :
@@ -1808,16 +1815,13 @@ Proof.
   set (names := ci_names ci) in *. set (drops := ci_drop ci) in *. set (syn := ci_syn ci) in *.
   set (ic := ign_char (i_ignchar i)) in *. set (mdt := i_mdt i) in *.
   cbn [forallb] in Hg.
-  pop Hg G1. pop Hg G2. pop Hg G3. pop Hg G4. pop Hg G5. pop Hg G6. pop Hg G7. pop Hg G8. pop Hg G9. pop Hg G10.
-  pop Hg G11. pop Hg G12. pop Hg G13. pop Hg G14. pop Hg G15. pop Hg G16. pop Hg G17. clear Hg.
+  pop Hg G1. pop Hg G5. pop Hg G7. pop Hg G11. pop Hg G12. pop Hg G13. pop Hg G14. pop Hg G15. pop Hg G16. clear Hg.
   destruct (null_string (i_null i)) as [ns|e] eqn:Ens; cbn [bind]; [|reflexivity].
   pose proof (null_string_ok _ _ Ens) as Hnull.
   change (kept_names names drops) with (kept_of drops names).
   destruct (negb (nodup_s (kept_of drops names))); [reflexivity|].
   (* lines *)
-  unfold g_ignchar in G2. apply negb_true_iff in G2. unfold g_last_comment in G3. apply negb_true_iff in G3.
-  fold ic in G2, G3. unfold g_blank in G4. fold ic in G4.
-  pose proof (lines_agree ic (i_text i) G2 G3 G4) as Hlines.
+  pose proof (lines_agree ic (i_text i)) as Hlines.
   destruct (prefilter ic (i_text i)) as [p|e] eqn:Ep; [|rewrite Hlines; reflexivity]. rewrite Hlines. cbn [bind].
   destruct (spec_lines_ok _ _ _ Hlines) as [Hdl_eq Hnoblank].
   assert (data_lines i = file_lines p) as Hdata by (unfold data_lines; fold ic; symmetry; exact Hdl_eq).
@@ -1831,38 +1835,37 @@ Proof.
   rewrite Hrows. set (rows := map spec_items (file_lines p)) in *.
   assert (data_rows i = rows) as Hdr by (unfold data_rows; rewrite Hdata; reflexivity).
   destruct rows as [|r0 rest] eqn:Erows; [reflexivity|]. rewrite <- Erows in *. clearbody rows.
-  (* the frame *)
-  set (n := length names) in *. set (w := length r0).
-  assert (first_width i = w) as Hfw by (unfold first_width; rewrite Hdr, Erows; reflexivity).
-  unfold g_first_width in G6. rewrite Hfw in G6. apply Nat.leb_le in G6. fold n in G6.
-  assert (frame n ns rows = Ok (map (mshape w n ns) rows)) as ->.
-  { unfold frame. rewrite Erows. fold w. assert (n <? w = false) as -> by (apply Nat.ltb_ge; exact G6). rewrite <- Erows. reflexivity. }
+  (* the frame: every row is the documented row *)
+  set (n := length names) in *.
+  assert (first_width i = length r0) as Hfw by (unfold first_width; rewrite Hdr, Erows; reflexivity).
+  assert (frame n rows = Ok (map (spec_shape n) rows)) as ->.
+  { destruct (frame n rows) as [fr|e] eqn:Efr; [|rewrite Erows in Efr; discriminate].
+    destruct (pad_strip_lemma n rows fr Efr) as [-> _]; [|reflexivity].
+    unfold g_rows_within in G7. rewrite Hdr, Hfw in G7. replace (hd [] rows) with r0 by (rewrite Erows; reflexivity). fold n in G7. exact G7. }
   cbn [bind].
   (* facts about every data row *)
-  assert (forall r, In r rows -> row_guard i names drops syn w r) as Hrg.
-  { intros r Hr. unfold row_guard. unfold g_rows_within in G7. rewrite Hdr, Hfw in G7. rewrite forallb_forall in G7.
-    unfold g_items in G9, G10, G11. rewrite Hdr in G9, G10, G11. rewrite forallb_forall in G9, G10, G11.
-    repeat split; auto. apply Nat.leb_le. apply G7. exact Hr. }
+  assert (forall r, In r rows -> row_guard i names drops syn r) as Hrg.
+  { intros r Hr. unfold row_guard. unfold g_items in G11. rewrite Hdr in G11. rewrite forallb_forall in G11. apply G11. exact Hr. }
   (* IGNORE / ACCEPT *)
   assert (forall flag fs, incl fs (i_ignore i ++ i_accept i) ->
-            match apply_filters names syn ns mdt flag fs (map (mshape w n ns) rows) with
-            | Ok fr' => exists rows', fr' = map (mshape w n ns) rows' /\ incl rows' rows /\
+            match apply_filters names syn ns mdt flag fs (map (spec_shape n) rows) with
+            | Ok fr' => exists rows', fr' = map (spec_shape n) rows' /\ incl rows' rows /\
                                       filterM (spec_filters_row names syn ns mdt flag fs) rows = Ok rows'
             | Err e => filterM (spec_filters_row names syn ns mdt flag fs) rows = Err e
             end) as Hfilt.
   { intros flag fs Hincl.
     assert (filters_valid names syn fs = true) as Hv by (apply (forallb_incl _ _ _ Hincl); exact G16).
     rewrite (filters_in_order_lemma ns mdt names syn flag fs _ Hv). rewrite filterM_map.
-    assert (filterM (fun x => filters_get (convert_item ns mdt) names syn flag fs (nth_cell (mshape w n ns x))) rows =
+    assert (filterM (fun x => filters_get (convert_item ns mdt) names syn flag fs (nth_cell (spec_shape n x))) rows =
             filterM (spec_filters_row names syn ns mdt flag fs) rows) as ->.
     { apply filterM_ext_in. intros r Hr. unfold spec_filters_row.
-      apply (filters_get_agree i names drops syn ns mdt w Hdl G6 Hnull (eq_sym Hfw) flag fs r Hincl G8 (Hrg r Hr)). }
+      apply (filters_get_agree i names drops syn ns mdt Hdl Hnull flag fs r Hincl (Hrg r Hr)). }
     destruct (filterM (spec_filters_row names syn ns mdt flag fs) rows) as [rows'|e] eqn:Ef; [|reflexivity].
     exists rows'. repeat split. apply (filterM_incl _ _ _ Ef). }
   (* conversion, columns, postprocess: for any subset of the rows *)
   assert (forall rows', incl rows' rows ->
             match bind (mapM (convert_row ns mdt (map (fun nd : str * bool => parse_col (fst nd) (snd nd)) (combine names drops)))
-                             (map (mshape w n ns) rows'))
+                             (map (spec_shape n) rows'))
                        (fun rws => postprocess (id_label names) (has_date names) ns mdt (columns_of names drops rws)) with
             | Ok t => bind (mapM (fun r => spec_convert_row ns mdt names drops (spec_shape n r)) rows')
                            (fun crows => postprocess (id_label (kept_of drops names)) (has_date (kept_of drops names)) ns mdt
@@ -1874,39 +1877,25 @@ Proof.
                        = Err e
             end) as Hconv.
   { intros rows' Hincl. rewrite parse_flags_eq.
-    pose proof (rows_convert_agree ns mdt (id_label names) names drops (mshape w n ns) rows') as Hrc.
+    pose proof (rows_convert_agree ns mdt (id_label names) names drops (spec_shape n) rows') as Hrc.
     match type of Hrc with ?A -> _ => assert A as Hrows'; [|specialize (Hrc Hrows')] end.
-    { intros r Hr. apply Hincl in Hr. pose proof (Hrg r Hr) as Hg1. destruct Hg1 as [Hmin Hitems].
+    { intros r Hr. apply Hincl in Hr. pose proof (Hrg r Hr) as Hitems.
       apply conv_row_agree.
       { exact Hdl. }
-      { apply length_mshape; exact G6. }
-      { unfold spec_shape, shape. rewrite firstn_length, app_length, map_length, repeat_length. fold n.
-        change (length names) with n. generalize (length r). generalize n. clear. intros a b. lia. }
-      intros j Hj. fold n in Hj. change (length names) with n. change (nth j (mshape w n ns r) None) with (nth_cell (mshape w n ns r) j).
-      rewrite (nth_spec_shape n r j Hj).
-      assert (null_subst ns (nth_cell (mshape w n ns r) j) = null_subst ns (nth_error r j)) as Hnulleq
-        by (apply (cell_null_eq i names drops ns w Hdl G6 Hnull (eq_sym Hfw)); assumption).
+      { apply length_spec_shape. }
+      { apply length_spec_shape. }
+      intros j Hj. fold n in Hj. change (length names) with n.
+      change (nth j (spec_shape n r) None) with (nth_cell (spec_shape n r) j). rewrite (nth_spec_shape n r j Hj).
       repeat split.
-      - exact Hnulleq.
-      - (* TIME *)
-        intros Ht Hd. unfold timelike in Ht. cbn [mems existsb] in Ht. apply orb_true_iff in Ht. destruct Ht as [Ht|Ht].
-        + apply str_eqb_eq in Ht. apply nth_mshape_lt. rewrite <- Hfw.
-          apply (time_col_lt names drops i j G17 G15 Hj Ht Hd).
-        + exfalso. unfold g_no_date, has_date in G14. apply negb_true_iff in G14.
-          assert (existsb (fun d => mems d names) date_names = true) as T; [|congruence].
-          apply existsb_exists. apply existsb_exists in Ht. destruct Ht as [d [Hd1 Hd2]]. apply str_eqb_eq in Hd2. exists d. split; [exact Hd1|].
-          apply mems_In. rewrite <- Hd2. apply nth_In. exact Hj.
-      - intro Hp. rewrite Hnulleq. apply (cell_item_ok i names drops syn ns w Hnull r j (Hrg r Hr) Hj).
+      - intro Hp. apply (cell_item_ok i names drops syn ns Hnull r j Hitems Hj).
         rewrite nth_conv_flags by assumption. rewrite nth_parse_flags by assumption. apply orb_true_iff. left. exact Hp.
       - intros Hl Hd. destruct (id_label names) as [l|] eqn:El; [|discriminate].
         cbn [is_label] in Hl. apply str_eqb_eq in Hl. symmetry in Hl.
         assert (In r (data_rows i)) as Hrd by (rewrite Hdr; exact Hr).
         destruct (id_drop_item names drops i j l r G12 El G15 Hj Hl Hd Hrd) as [x [Ex Hx]].
-        exists x. split; [|exact Hx].
-        assert (j < length r) as Hjr by (apply nth_error_Some; congruence).
-        rewrite nth_mshape_lt; [exact Ex|]. unfold str in Hmin, Hj, Hjr. generalize Hmin Hjr Hj. generalize (length r). generalize (length names). clear. intros b a H1 H2 H3. lia. }
+        exists x. split; [exact Ex | exact Hx]. }
     change (length names) with n in Hrc.
-    destruct (mapM (convert_row ns mdt (parse_flags names drops)) (map (mshape w n ns) rows')) as [mrows|e]; [|rewrite Hrc; reflexivity].
+    destruct (mapM (convert_row ns mdt (parse_flags names drops)) (map (spec_shape n) rows')) as [mrows|e]; [|rewrite Hrc; reflexivity].
     destruct Hrc as [Hrc1 Hrc2]. rewrite Hrc1. cbn [bind].
     rewrite <- (kept_columns names drops mrows Hdl (fun r Hr => proj2 (Hrc2 r Hr))).
     set (cols := columns_of names drops mrows).
@@ -1931,12 +1920,12 @@ Proof.
     cbn [bind]. fold n. destruct (bind _ _) as [t|e] in Hconv |- *; exact Hconv.
   - (* ACCEPT *)
     cbn [is_nil negb]. specialize (Hfilt false (g1 :: gs1) ltac:(intros x Hx; exact Hx)).
-    destruct (apply_filters names syn ns mdt false (g1 :: gs1) (map (mshape w n ns) rows)) as [fr'|e]; [|rewrite Hfilt; reflexivity].
+    destruct (apply_filters names syn ns mdt false (g1 :: gs1) (map (spec_shape n) rows)) as [fr'|e]; [|rewrite Hfilt; reflexivity].
     destruct Hfilt as [rows' [-> [Hincl ->]]]. cbn [bind]. specialize (Hconv rows' Hincl). fold n.
     destruct (bind _ _) as [t|e] in Hconv |- *; exact Hconv.
   - (* IGNORE *)
     cbn [is_nil negb]. specialize (Hfilt true (f1 :: fs1) ltac:(intros x Hx; rewrite app_nil_r; exact Hx)).
-    destruct (apply_filters names syn ns mdt true (f1 :: fs1) (map (mshape w n ns) rows)) as [fr'|e]; [|rewrite Hfilt; reflexivity].
+    destruct (apply_filters names syn ns mdt true (f1 :: fs1) (map (spec_shape n) rows)) as [fr'|e]; [|rewrite Hfilt; reflexivity].
     destruct Hfilt as [rows' [-> [Hincl ->]]]. cbn [bind]. specialize (Hconv rows' Hincl). fold n.
     destruct (bind _ _) as [t|e] in Hconv |- *; exact Hconv.
 Qed.
@@ -1999,11 +1988,14 @@ Proof.
   destruct (line_char_facts a Ha) as [_ [_ [Hs _]]]. rewrite Hs. reflexivity.
 Qed.
 
-Lemma blank_error_none ls t : (forall l, In l ls -> forallb is_blankc l = false) -> blank_error ls t = false.
+Lemma blank_error_none ls : (forall l, In l ls -> forallb is_blankc l = false) -> blank_error ls [] = false.
 Proof.
-  induction ls as [|l ls IH]; intro H; [reflexivity|]. cbn [blank_error]. rewrite (H l (or_introl eq_refl)). cbn [andb orb].
-  apply IH. intros l' Hl'. apply H. right. exact Hl'.
+  intro H. unfold blank_error. cbn [is_nil negb andb]. rewrite orb_false_r. apply not_true_is_false. intro F.
+  apply existsb_exists in F. destruct F as [l [Hl Hb]]. rewrite (H l Hl) in Hb. discriminate.
 Qed.
+
+Lemma comment_line_nil ic : comment_line ic [] = false.
+Proof. unfold comment_line. destruct (N.eqb ic c_at); reflexivity. Qed.
 
 (* a printed line: nonempty tokens joined by commas *)
 Definition toks_ok (cells : list str) : Prop :=
@@ -2320,8 +2312,8 @@ Section CycleMain.
     apply andb_true_iff in G. destruct G as [G Gcols]. apply andb_true_iff in G. destruct G as [G Grows].
     apply andb_true_iff in G. destruct G as [G Gne]. apply andb_true_iff in G. destruct G as [G Ghdrc].
     apply andb_true_iff in G. destruct G as [G Gdate]. apply andb_true_iff in G. destruct G as [G Gnames].
-    apply andb_true_iff in G. destruct G as [G Gnodup]. apply andb_true_iff in G. destruct G as [Gre Gn].
-    apply negb_true_iff in Gre. apply negb_true_iff in Gdate. apply negb_true_iff in Gne. apply Nat.leb_le in Gn.
+    apply andb_true_iff in G. destruct G as [Gn Gnodup].
+    apply negb_true_iff in Gdate. apply negb_true_iff in Gne. apply Nat.leb_le in Gn.
     set (ic := hdr_ignchar hdr) in *. set (n := length hdr) in *.
     rewrite forallb_forall in Grows.
     assert (forall r, In r rows -> length r = n /\ forallb (cell_ok pr mdt) r = true /\
@@ -2345,13 +2337,13 @@ Section CycleMain.
     rewrite Hci. cbn [bind ci_names ci_drop ci_syn]. rewrite Hnull. cbn [bind]. rewrite kept_names_all. rewrite Gnodup. cbn [negb].
     rewrite Hign.
     assert (prefilter ic (csv_text pr mdt hdr rows) = Ok (rowlines, [])) as ->.
-    { unfold prefilter. rewrite Gre. unfold csv_text, csv_lines. fold rowlines.
+    { unfold prefilter. unfold csv_text, csv_lines. fold rowlines.
       rewrite lines_tail_flat.
       2:{ intros l Hl Hin. assert (forallb line_char l = true) as Hlc.
           { destruct Hl as [<-|Hl]; [apply (toks_line hdr Htokh)|]. unfold rowlines in Hl. apply in_map_iff in Hl. destruct Hl as [r [<- Hr]].
             apply (toks_line _ (Htokr r Hr)). }
           rewrite forallb_forall in Hlc. destruct (line_char_facts _ (Hlc _ Hin)) as [_ [F _]]. rewrite N.eqb_refl in F. discriminate. }
-      cbn [filter]. rewrite Ghdrc. cbn [negb].
+      rewrite comment_line_nil. cbn [filter]. rewrite Ghdrc. cbn [negb].
       rewrite filter_all.
       2:{ apply forallb_forall. intros l Hl. unfold rowlines in Hl. apply in_map_iff in Hl. destruct Hl as [r [<- Hr]].
           destruct (Hrows r Hr) as [_ [_ Hc]]. rewrite Hc. reflexivity. }
@@ -2370,13 +2362,14 @@ Section CycleMain.
       - unfold rowlines. rewrite map_map. apply map_ext_in. intros r Hr. apply spec_items_join. apply (Htokr r Hr).
       - intros l Hl. unfold rowlines in Hl. apply in_map_iff in Hl. destruct Hl as [r [<- Hr]]. apply toks_g_row. apply (Htokr r Hr). }
     (* the frame *)
-    assert (frame (length hdr) ns (map (fun r => map (pr_cell pr mdt) r) rows) =
+    assert (frame (length hdr) (map (fun r => map (pr_cell pr mdt) r) rows) =
             Ok (map (fun r => map Some (map (pr_cell pr mdt) r)) rows)) as ->.
     { unfold frame. destruct rows as [|r0 rest] eqn:Er; [discriminate|]. cbn [map].
       assert (length (map (pr_cell pr mdt) r0) = n) as Hl0 by (rewrite map_length; apply (Hrows r0); left; reflexivity).
-      rewrite Hl0. fold n. rewrite Nat.ltb_irrefl. rewrite Nat.sub_diag. cbn [repeat]. f_equal. f_equal.
-      - rewrite app_nil_r. apply shape_full. exact Hl0.
-      - rewrite map_map. apply map_ext_in. intros r Hr. rewrite app_nil_r. apply shape_full. rewrite map_length. apply (Hrows r). right. exact Hr. }
+      rewrite Hl0. fold n. rewrite Nat.sub_diag. cbn [repeat]. f_equal. f_equal.
+      - rewrite app_nil_r. rewrite firstn_all2 by (rewrite length_shape; lia). apply shape_full. exact Hl0.
+      - rewrite map_map. apply map_ext_in. intros r Hr. rewrite app_nil_r. rewrite firstn_all2 by (rewrite length_shape; lia).
+        apply shape_full. rewrite map_length. apply (Hrows r). right. exact Hr. }
     cbn [bind filter_ignore_accept].
     (* conversion *)
     rewrite <- (map_map (fun r => map (pr_cell pr mdt) r) (fun s => map Some s)). rewrite mapM_map. rewrite mapM_map.
